@@ -10,8 +10,10 @@ ROOT = os.path.dirname(os.path.dirname(os.path.abspath(__file__)))
 def write(prop, tier, seed, out, wall):
     obl = out['obligation_list']
     samples = []
-    for o in obl[:12]:
-        samples.append({'obligation': o['name'], 'backend': o['backend'], 'solver_ms': o.get('time_ms'), 'rlimit': o.get('rlimit'), 'discharged': o['ok']})
+    # the obligations with the most solver work first: they carry the property-level contracts
+    for o in sorted(obl, key=lambda x: -(x.get('time_ms') or 0))[:14]:
+        samples.append({'obligation': o['name'], 'backend': o['backend'], 'solver_ms': o.get('time_ms'), 'rlimit': o.get('rlimit'), 'discharged': o['ok'],
+                        'contract': o.get('contract') or o.get('doc')})
     for f in out['fails'][:5]:
         samples.append({'refuted': f['obligation'], 'message': f.get('message'), 'clause': f.get('clause')})
     doc = {
@@ -22,7 +24,8 @@ def write(prop, tier, seed, out, wall):
             'trusted_base': out['trusted'],
             'samples': samples,
             'functions_under_contract': [o['name'] for o in obl],
-            'per_obligation': [{'name': o['name'], 'backend': o['backend'], 'solver_ms': o.get('time_ms'), 'rlimit': o.get('rlimit'), 'ok': o['ok']} for o in obl],
+            'per_obligation': [{'name': o['name'], 'backend': o['backend'], 'solver_ms': o.get('time_ms'), 'rlimit': o.get('rlimit'), 'ok': o['ok'], 'bounded': o.get('bounded')} for o in obl],
+            'proved_unbounded': len([o for o in obl if o['ok'] and not o.get('bounded')]), 'bounded_only': len([o for o in obl if o.get('bounded')]),
             'solver_time_ms': sum((o.get('time_ms') or 0) for o in obl),
             'canary': out['canary'],
             'extraction_rewrites': out['rewrites'], 'injected_rewrites': [list(x) for x in out['injected_rewrites']],
